@@ -212,6 +212,9 @@ def cache_code_objects():
            base._BaseCoordinateIndexer._get_bounds, base._CoordinateIndexer._perform_get_item,
            spd.DaskGeoSeries.partition_bounds.fget, spd.DaskGeoSeries.partition_sindex.fget,
            spd.DaskGeoDataFrame.partition_sindex.fget]
+    import importlib
+    sj = importlib.import_module("spatialpandas.tools.sjoin")
+    fns.append(sj._sjoin_dask_pandas)
     return [f.__code__ for f in fns]
 
 
@@ -365,6 +368,9 @@ def run(ctx, spec):
         def client(i):
             try:
                 barrier.wait(timeout=60)
+                if seed % 2:
+                    # staggered arrival: later clients come while the first ones are inside their first access
+                    time.sleep(0.004 * i)
                 with lk:
                     inside["n"] += 1
                     inside["max"] = max(inside["max"], inside["n"])
@@ -401,6 +407,14 @@ def run(ctx, spec):
         for i in range(nclients):
             if errors[i] is not None:
                 e, tb = errors[i]
+                last = tb.strip().splitlines()[-8:]
+                if isinstance(e, KeyError) and any("dask/_expr.py" in ln_ for ln_ in last) and \
+                        any("_instances" in ln_ for ln_ in last):
+                    # dask's own expression cache (a WeakValueDictionary looked up without a lock) lost a race
+                    # between two threads building the same expression: raised and caused inside dask, it says
+                    # nothing about the object under test - this trial is inconclusive, not a verdict
+                    ctx.count("dask_expression_cache_races")
+                    return
                 ctx.violation("concurrent-use", f"schedule:shared-{name}:client-raised:{type(e).__name__}",
                               {"op": name, "config": f"clients{nclients}:seed{seed}"}, observed=short_exc(e),
                               msg=tb[-1500:])
@@ -424,10 +438,35 @@ def run(ctx, spec):
          lambda d: (np.asarray(d.geometry.total_bounds, dtype=float), d.partition_sindex.intersects(box) * 1,
                     d.cx[box[0]:box[2], box[1]:box[3]].compute(scheduler="synchronous"))),
     ]
+    # one DaskGeoSeries object shared by all clients (its caches are filled by whoever comes first)
+    trials.append(("dask-series-bounds-and-cx", lambda: dd.from_pandas(F["lines"], npartitions=5).geometry,
+                   lambda s_: (lambda pb_: (type(pb_).__module__.split(".")[0] + "." + type(pb_).__name__,
+                                            np.asarray(pb_.values, dtype=float),
+                                            type(s_.partition_sindex).__name__,
+                                            s_.cx[box[0]:box[2], box[1]:box[3]].compute(scheduler="synchronous")))(
+                       s_.partition_bounds)))
+    # joins that find no candidate partition next to reads: process-wide settings must stay what they were
+    from spatialpandas import sjoin as _sjoin
+    from spatialpandas.io import read_parquet_dask as _rpd
+    far_right = GeoDataFrame({"w": np.arange(2), "sq": PolygonArray(
+        [[[10 ** 6, 10 ** 6, 10 ** 6 + 5, 10 ** 6, 10 ** 6 + 5, 10 ** 6 + 5, 10 ** 6, 10 ** 6]],
+         [[2 * 10 ** 6, 10 ** 6, 2 * 10 ** 6 + 5, 10 ** 6, 2 * 10 ** 6 + 5, 10 ** 6 + 5, 2 * 10 ** 6, 10 ** 6]]],
+        dtype="float64")})
+    pq_share = os.path.join(ctx.scratch, "c18-shared-read.parq")
+    with dask.config.set(scheduler="synchronous"):
+        dd.from_pandas(F["lines"], npartitions=3).to_parquet(pq_share)
+    trials.append(("dask-empty-sjoin-next-to-reads", lambda: dd.from_pandas(F["pts"], npartitions=6),
+                   lambda d_: (_sjoin(d_, far_right, how="inner").compute(scheduler="synchronous"),
+                               tuple(str(t_) for t_ in _rpd(pq_share).dtypes),
+                               tuple(str(t_) for t_ in dd.from_pandas(F["polys"], npartitions=2).dtypes),
+                               str(dask.config.get("dataframe.convert-string", None)))))
     for rep in range(p["reps"]):
         for nclients in p["clients"]:
-            for name, make, query in trials:
-                ok, r, tb = ctx.guarded(shared_trial, name, make, query, nclients, ctx.seed * 1000 + rep * 17 + nclients)
+            for ti, (name, make, query) in enumerate(trials):
+                # (the parity of the seed decides whether the clients arrive together or staggered: for every
+                #  trial one of the client counts is staggered)
+                ok, r, tb = ctx.guarded(shared_trial, name, make, query, nclients,
+                                        ctx.seed * 1000 + rep * 18 + nclients // 2 + ti)
                 if not ok:
                     if exc_in_repo(tb):
                         ctx.violation("raised", f"schedule:shared-{name}:raised:{type(r).__name__}",
